@@ -461,6 +461,24 @@ func c09Record(args []string) error {
 			}
 			runtime.GOMAXPROCS(ncpu)
 		}
+		// a quadtree deep enough (> 2^9 cells) for any "large squares in parallel" strategy to engage
+		{
+			plate := sdf.Box2D(v2.Vec{X: 3, Y: 2}, 0.3)
+			for _, gp := range []int{1, 2, ncpu} {
+				runtime.GOMAXPROCS(gp)
+				for k := 0; k < 2; k++ {
+					ls := collectLines(plate, render.NewMarchingSquaresQuadtree(700))
+					xs := []int{}
+					for _, l := range ls {
+						for _, x := range []float64{l[0].X, l[0].Y, l[1].X, l[1].Y} {
+							xs = append(xs, int(math.Float64bits(x)>>12))
+						}
+					}
+					emit(detObs{"det", "plate/quadtree/700/mem", fmt.Sprintf("gomaxprocs=%d k=%d rep=%d", gp, k, rep), digestInts(xs), len(ls)})
+				}
+			}
+			runtime.GOMAXPROCS(ncpu)
+		}
 		// concurrent renders run in a child process: a crash of the library there is an observation
 		concurrentInChild(rep)
 		// the same path written again after a longer file (an earlier, finer render)
